@@ -365,6 +365,14 @@ static cfg_opt_t *cfg_getopt_secidx(cfg_t *cfg, const char *name,
 			return NULL;
 
 		name += len;
+		/* a step ends at a separator or at the end of the path, not in
+		 * the middle of a word: "sec='a'b" and "sec='a'=" name nothing */
+		if (*name && *name != '|') {
+			if (!is_set(CFGF_IGNORE_UNKNOWN, cfg->flags) &&
+			    !(!index && is_set(CFGF_KEYSTRVAL, cfg->flags)))
+				cfg_error(cfg, _("no such option '%s'"), name);
+			return NULL;
+		}
 		len = strspn(name, "|");
 		/* the path of a section does not end in a separator */
 		if (index && len && !name[len])
